@@ -216,10 +216,19 @@ def build(recipe):
     if recipe == 'extdelta2':
         return extdelta_db(auto_first=False)
     """recipe: 'default' | 'every' | 'every-nounknown' | 'every-strings' | 'extended'"""
-    if recipe is None or recipe == 'default':
+    if recipe is None or recipe in ('default', 'default-fresh'):
+        # ('default-fresh': the caller builds a new database for every parse, as LatexWalker(s)
+        # without latex_context= does)
         return default_db()
     if recipe == 'every':
         return every_type_db(True)
+    if recipe == 'every-unkspecials':
+        # a catch-all specification for unknown specials as well (get_specials_spec() returns it
+        # for any sequence that is not defined; it defines no specials itself)
+        from pylatexenc.macrospec import SpecialsSpec
+        db = every_type_db(True)
+        db.set_unknown_specials_spec(SpecialsSpec(''))
+        return db
     if recipe == 'every-nounknown':
         return every_type_db(False)
     if recipe == 'every-strings':
